@@ -530,6 +530,10 @@ def _havoc_for_loop(ex, body, st: St, extra_modifies=(), only=None):
     for name in assigned_names(body):
         if name in s.env:
             s.env[name] = fresh_like(s.env[name], s, name)
+        elif not name.startswith("_"):
+            # a local first assigned INSIDE the loop: after (or at the start of a later iteration of) the loop it holds an
+            # unknown value (if the loop never ran, CPython raises NameError at the use: not modelled, like other NameErrors)
+            s.env[name] = Val(smt.fresh_v(f"lv_{name}"), ANY)
     havoc_all = False
     refs = []
     if only == "non-entry":
